@@ -83,16 +83,20 @@ DEFOP(sort) {
     }
     for (size_t i = 1; i < o->kids.size(); i++)
         if (!key_le(o->kids[i - 1]->key, o->kids[i]->key, cs)) { w.mismatch("sort-order", std::string("keys are not non-decreasing in ") + (cs ? "byte" : "case-folded") + " order: '" + show_bytes(o->kids[i - 1]->key, 30) + "' before '" + show_bytes(o->kids[i]->key, 30) + "'"); return; }
-    // idempotent: a second sort changes nothing
+    // idempotent: a second sort changes nothing (members with equal keys may swap: the key sequence is what must not change)
     std::vector<const cJSON *> before;
     for (MVal *k : o->kids) before.push_back(k->c);
+    bool equal_keys = false;
+    for (size_t i = 1; i < o->kids.size(); i++) if (key_le(o->kids[i]->key, o->kids[i - 1]->key, cs)) equal_keys = true;
     if (cs) cJSONUtils_SortObjectCaseSensitive(o->c); else cJSONUtils_SortObject(o->c);
     {
-        const cJSON *c = o->c->child;
+        std::string pw;
+        if (!adopt_permutation(o, pw)) { w.mismatch("sort-permutation", "after a second sort: " + pw); return; }
         for (size_t i = 0; i < before.size(); i++) {
-            if (c != before[i]) { w.mismatch("sort-idempotent", "a second sort changed the member order"); return; }
-            c = c->next;
+            if (!equal_keys && o->kids[i]->c != before[i]) { w.mismatch("sort-idempotent", "a second sort changed the member order although all keys are distinct"); return; }
         }
+        for (size_t i = 1; i < o->kids.size(); i++)
+            if (!key_le(o->kids[i - 1]->key, o->kids[i]->key, cs)) { w.mismatch("sort-idempotent", "after a second sort the keys are no longer non-decreasing"); return; }
     }
     if (o->kids.size() >= 3) w.mark_nontrivial();
     { bool dup = false; for (size_t i = 1; i < o->kids.size(); i++) if (o->kids[i]->key == o->kids[i - 1]->key) dup = true; if (dup) w.stats.probes["sort_duplicate_keys"]++; }
@@ -543,7 +547,7 @@ DEFOP(dupcheck) {
     // keyless object members / unknown keys make Compare and printing ill-defined: only check on clean trees
     std::string dw;
     bool clean = true;
-    { std::vector<MVal *> all; mv_collect(m, all); for (MVal *k : all) { if (k->type == T_INVALID) clean = false; if (k->parent && k->parent->type == T_OBJECT && k->keystate != K_KNOWN) clean = false; if (k->type == T_NUMBER && k->num != k->num) clean = false; } }
+    { std::vector<MVal *> all; mv_collect(m, all); for (MVal *k : all) { if (k->type == T_INVALID) clean = false; if (k->parent && k->parent->type == T_OBJECT && k->keystate != K_KNOWN) clean = false; if (k->type == T_NUMBER && !std::isfinite(k->num)) clean = false; } }
     if (clean) {
         bool distinct = true;
         { std::vector<MVal *> all; mv_collect(m, all); for (MVal *o : all) if (o->type == T_OBJECT) for (size_t i = 0; i < o->kids.size(); i++) for (size_t j = 0; j < i; j++) if (o->kids[i]->key == o->kids[j]->key) distinct = false; }
